@@ -84,6 +84,21 @@ ShadowCases ==
   \cup {Case("shadow-closure-" \o c,
         InClosure(ConstructF(c, <<>>, V("v"), V("w"))), T3(1, 2, 1)) : c \in BoundByConstruct}
 
+\* the name a construct binds itself (type test, loop variable, parameter) next to an outer x of ANOTHER type: after the
+\* construct x is the outer string again - for the checker and at run time alike (the events of these runs are judged too)
+OtherTypeCases ==
+  {Case("shadow-other-type-" \o c \o "-" \o o,
+        <<Set("x", IF o = "hidden" THEN Hide(WStr, S(<<105, 110>>)) ELSE S(<<105, 110>>)), Set("inside", MutE(WInt, I(0)))>>
+          \o Construct(c, <<>>) \o <<Set("after", Bin("+", V("x"), S(<<33>>))), TupE(<<Deref(V("inside")), V("after")>>)>>,
+        TupV(<<IntV(2), StrV(<<105, 110, 33>>)>>))
+     : c \in {"ifset-x", "ifset-x-value", "match-ty-x", "match-ty-x-value", "whileset", "for-x", "fn-param"}, o \in {"hidden", "const"}}
+  \cup {Case("shadow-other-type-in-fn-" \o c,
+        <<FnDecl("run", <<P("x", WStr)>>, WTup(<<WInt, WStr>>),
+                 <<Set("inside", MutE(WInt, I(0)))>> \o Construct(c, <<>>) \o <<Ret(TupE(<<Deref(V("inside")), Bin("+", V("x"), S(<<33>>))>>))>>),
+          CallE(V("run"), <<Hide(WStr, S(<<105, 110>>))>>)>>,
+        TupV(<<IntV(2), StrV(<<105, 110, 33>>)>>))
+     : c \in {"ifset-x", "ifset-x-value", "match-ty-x", "match-ty-x-value", "whileset", "for-x"}}
+
 \* blocks whose ONLY statement is a declaration of x with ANOTHER type (the outer x is an int and is used as an int
 \* afterwards): a block is a scope however short it is
 Str == S(<<105, 110>>)
@@ -555,7 +570,7 @@ ModCases == {
 }
 
 \* int / bool / struct values cannot share one TLC set: keep the suites in separate sequences
-CaseSeq == SetToSeq(ShadowCases) \o SetToSeq(SoloCases) \o SetToSeq(LateCases) \o SetToSeq(RedeclCases) \o SetToSeq(CapturedCases) \o SetToSeq(CaptureCases) \o SetToSeq(DeepCases) \o SetToSeq(RecCases) \o SetToSeq(NoisyCases) \o <<HelperCase>> \o SetToSeq(HelperOperandCases) \o SetToSeq(ModCases)
+CaseSeq == SetToSeq(ShadowCases) \o SetToSeq(OtherTypeCases) \o SetToSeq(SoloCases) \o SetToSeq(LateCases) \o SetToSeq(RedeclCases) \o SetToSeq(CapturedCases) \o SetToSeq(CaptureCases) \o SetToSeq(DeepCases) \o SetToSeq(RecCases) \o SetToSeq(NoisyCases) \o <<HelperCase>> \o SetToSeq(HelperOperandCases) \o SetToSeq(ModCases)
 N == Len(CaseSeq)
 Fuel == 3000
 Out(i) == Outcome(Run(CaseSeq[i].prog, Fuel))
